@@ -7,7 +7,8 @@ import obl_kani
 def run(c):
     import clauses
     c.only_clauses = clauses.OWN["C15"]
-    names = ["k_rank_sort_unstable_4"] + (["k_rank_sort_unstable_6"] if c.tier == "thorough" else [])
+    # "when the English option is on": the option as the front end last set it, through any history of setter calls
+    names = ["k_english_mask", "k_rank_sort_unstable_4"] + (["k_rank_sort_unstable_6"] if c.tier == "thorough" else [])
     obl_kani.run(c, names, timeout=3000)
     A.validate_dictionary_order(c)
     A.obl_regex_hygiene(c, 3 if c.tier == "quick" else 4, budget_s=900)
